@@ -126,6 +126,8 @@ def gen_scenario(rng, k, force=None):
     fam = force.get("family") or rng.choice(["daily", "daily", "hourly", "billing", "hourly", "daily", "billing"])
     period = force.get("period") or rng.choice(["baseline", "baseline", "reporting"])
     sc = {"family": fam, "period": period, "electric": rng.random() < 0.5, "tz": rng.choice(L.ZONES)}
+    if sc["tz"] == "UTC":
+        sc["utc_kind"] = rng.choice(L.UTC_KINDS)      # the index carries one of five kinds of UTC tzinfo
     d0 = dt.date(2018, 1, 1) + dt.timedelta(days=rng.randrange(0, 1200))
     sc["start"] = [d0.year, d0.month, d0.day]
     sc["span"] = force.get("span") or pick_span(rng, period)
@@ -520,7 +522,13 @@ def judge(sc, cells, obs, exp=None):
                           "reported %s, the published criteria give %s (spurious %s, missing %s)" % (
                               sorted(impl), sorted(want), extra, missing), sorted(want)))
     for w in sorted(exp["warn_must"] - warn):
-        fails.append((dict(sig0, cause="warning missing", warning=w), "warning %s is not reported" % w, sorted(exp["warn_must"])))
+        sig = dict(sig0, cause="warning missing", warning=w)
+        if w == "UtcIndex":
+            sig.update(utc_kind=sc.get("utc_kind", "stdlib"), tz_str_is_UTC=L.utc_by_name(sc), entry=sc["entry"])
+        fails.append((sig, "warning %s is not reported%s" % (w, (" (index in UTC, tzinfo kind %s)" % sig["utc_kind"]) if w == "UtcIndex" else ""),
+                      sorted(exp["warn_must"])))
+    if "UtcIndex" in warn and sc["tz"] != "UTC":
+        fails.append((dict(sig0, cause="spurious warning", warning="UtcIndex"), "utc_index reported for a local index", []))
     if sc["period"] == "baseline" and "NoData" not in want:
         has, margin = L.extreme_truth(cells)
         if margin is not None and margin > 1e-6 and has != ("ExtremeValues" in warn):
@@ -612,7 +620,8 @@ def coq_case(sc, obs, drop_extreme=False):
     cap = obs.get("captured")
     if not cap or "error" in cap:
         return None
-    ctx = "(mkctx %s %s %s)" % (coq_bool(sc["tz"] == "UTC"),
+    # x_utc: whether the pre-processing of the code as it is recognises the index as a UTC index
+    ctx = "(mkctx %s %s %s)" % (coq_bool(L.utc_as_coded(sc)),
                                 coq_bool(sc["family"] != "hourly" and sc["temp_source"] == "daily"),
                                 coq_bool(sc["family"] == "billing" and L.has_meter(sc) and bool(L.billing_offcycle(sc))))
     counts = "None"
@@ -712,6 +721,8 @@ def main():
         "last complete timestamp + 1 - the unit the statement prescribes for the valid days",
         "a calendar month is a month of the year (rows of the same month number of two years form one group)",
         "usage is optional for reporting data: only the temperature (and irradiance) criteria apply to it",
+        "an index is in UTC when its tzinfo has offset 0 and the zone name UTC (datetime.timezone.utc, pytz.UTC, "
+        "ZoneInfo('UTC'), dateutil tzutc(), the alias Etc/UTC): the utc_index warning is required for all of them",
         "a day's temperature is valid when more than 90 % of its hours are present and present when more than half are",
         "readings without a value at the outer edges of a series handed to from_series are not data (the entry point "
         "'trims the data to exclude NaNs on the outer edges'): the judged data starts / ends at the first / last reading "
@@ -732,9 +743,11 @@ def main():
     # step 0: translator
     try:
         gen = translate_sufficiency.generate(run)
+        L.UTC_RULE = gen["utc_rule"]
         run.cov["translated"] = {k: gen[k] for k in ("baseline", "reporting", "flags", "offcycle_target",
                                                      "min_length_rounding", "min_length_factor", "max_baseline_length",
-                                                     "min_fraction_daily_coverage")}
+                                                     "min_fraction_daily_coverage", "span_ignores_usage",
+                                                     "day_sum_rounded", "utc_rule")}
     except Exception as e:  # fail closed: a source the translator no longer recognises is a broken tie
         run.proof_ok = False
         run.proof_log += "translator failed: %s: %s" % (type(e).__name__, e)
